@@ -30,6 +30,11 @@ CLAIMED = {
     text='Seeded search over histories of beartype_all/_package(s)/_this_package calls and (nested, raising) beartyping() blocks; after every operation the real registry is queried for ~40 module names and compared with a three-value reference model (nearest registered ancestor, skip/exclusion, restore-on-exit, failed call changes nothing, path hook present iff registry non-empty). Evidence, not proof.',
     note='Trusted: the reference model (the property\'s sentences; reading of "restores exactly" stated in the evidence assumptions), in-place state restore between runs (violations re-confirmed in a pristine fork).',
     design='5/C06'),
+ 'C07': dict(
+    technique='deterministic simulation (history dimension): seeded orders of decorate / define-name / call events over live synthetic modules; evaluated-annotation twin under the same sampler draw as oracle',
+    text='Seeded search over histories in which a callable annotated by strings (quoted or postponed; module, method, nested-class method, closure placement) is decorated before, between or after the definition of the names it refers to and called at each stage: unresolved names needed by a check raise a beartype forward-reference exception (never NameError), the same function object works after the name is defined, and every call with all names resolvable gives the verdict of a twin decorated with the evaluated annotation under the same draw. The hint-shape coverage is ordinary generation; the technique decides the order-of-events part. Evidence, not proof.',
+    note='Trusted: the templates (only references Python\'s scoping makes resolvable), eval() of the annotation text for the twin.',
+    design='5/C07'),
  'C08': dict(
     technique='deterministic simulation: virtual-time asyncio event loop + protocol-operation driver, seeded cancellation/time-out/throw/close/finalisation faults, undecorated twin as oracle',
     text='Seeded search over generated generator / async-generator / coroutine bodies x protocol-operation sequences and event-loop scenarios (virtual time, seeded I/O completion, cancellation and time-outs injected at seeded instants, early break + finalisation, shutdown with live generators); the decorated function must produce the same per-object trace, body log (cleanup order) and final state as its undecorated twin, and report the same kind to inspect. Evidence, not proof.',
@@ -77,7 +82,7 @@ NOT_APPLICABLE = {
 }
 
 PENDING = {k: 'not claimed yet: the simulation engine for this property (DESIGN.md section 5) is not built at this commit' for k in
-           ['C07','C11']}
+           ['C11']}
 
 def main():
     checks = []
